@@ -32,6 +32,9 @@ type Built struct {
 	Src   map[string]string
 	Tags  []string
 	Templ bool // needs the harness templates
+	// RepoHost: the program can also run under the repository's own testing hosts (one module, no
+	// triggers, none of the harness builtins)
+	RepoHost bool
 }
 
 // Poison selects which poisoned constructs a family may use.
@@ -746,6 +749,8 @@ var Families = map[string]func(*fw.Rng, Poison) Built{
 	"cells":    famCells,
 	"synerr":   famSynErr,
 	"implerr":  famImplErr,
+	"hostvals": famHostVals,
+	"jsonkeys": famJSONKeys,
 }
 
 // FamilyNames in a fixed order (these families share one generator stream).
@@ -753,4 +758,4 @@ var FamilyNames = []string{"modules", "objects", "locals", "warnings", "impl", "
 
 // LateFamilyNames: families added after the first workloads were recorded. They draw from their own
 // generator stream, so that the cases of the older families stay what they were for every seed.
-var LateFamilyNames = []string{"fielderr", "cells", "synerr", "implerr"}
+var LateFamilyNames = []string{"fielderr", "cells", "synerr", "implerr", "hostvals", "jsonkeys"}
